@@ -14,8 +14,10 @@ CONSTANTS Vars,                    \* variables whose names may be requested: pa
           AsFound_GlobalNotFixed   \* TRUE: FixAliases rewrites sector equation blocks only
 
 \* places: "sector_eq" (blob equation of a sector), "term" (non-blob product term added with AddTermToEquation),
-\*         "supplier_rule" (allocation expression of a market), "global" (AddGlobalEquation)
-InSectorBlock(p) == p \in {"sector_eq", "term", "supplier_rule"}
+\*         "supplier_rule" (allocation expression of a market), "global" (AddGlobalEquation),
+\*         "own_generate" (a user-defined sector keeps the name and writes it into one of its own equations when its
+\*         _GenerateEquations runs, i.e. after FullCodes and before FixAliases)
+InSectorBlock(p) == p \in {"sector_eq", "term", "supplier_rule", "own_generate"}
 
 VARIABLES phase,      \* "construct" | "coded" | "fixed" | "final"
           aliases,    \* placeholders registered with the model: set of Vars
